@@ -40,6 +40,17 @@ CHECKS = {
             "Schedule space is what the evaluator offers (top-level statement safepoints). Poisoning turns dangling "
             "reads into faults deterministically but a dangling pointer never dereferenced is not observed.",
             "DESIGN.md#c03"),
+    "C04": ("exploration",
+            "bounded-exhaustive cross product export x access path x discovered mutator / reader, frozen-vs-unfrozen differential on the real evaluator",
+            "19 exported value graphs (nested, aliased and cyclic containers, struct, record, enum, range, scalars, closures, "
+            "partial): encodings, str/repr, == matrix and hashes observed inside the module before freezing must equal what "
+            "FrozenModule::get_owned, a load()ing module and a re-exporting module observe; every mutator discovered from "
+            "dir(value) x argument catalogue + statement forms is attempted on each of 44 access paths to reachable containers "
+            "and must fail leaving the value unchanged; ~50 read operations and all discovered non-mutating methods must give "
+            "the same result frozen and unfrozen; all ordered pairs of mutators from two importing modules, both load orders.",
+            "A mutator is an operation that changes the canonical encoding of an unfrozen value; qualified function names "
+            "are normalised for the module file name.",
+            "DESIGN.md#c04"),
     "C05": ("exploration",
             "exhaustive enumeration of all short texts / token sequences and of the edit neighbourhood of a corpus, x dialect lattice; invariants checked on every parse",
             "Every string of length <=5/6 over a 17-symbol alphabet derived from the lexer's case analysis (quotes, backslash, "
@@ -58,6 +69,18 @@ CHECKS = {
             "inside-def (inlinable), callee-as-parameter, frozen+loaded, lambda and host eval_function paths.",
             "CPython's binding rules are the reference; calls are written in the argument order Starlark's grammar accepts.",
             "DESIGN.md#c08"),
+    "C09": ("exploration",
+            "all ordered pairs over a catalogue of constructions of the same abstract values (exhaustive), judged against an abstract equivalence / order",
+            "155 constructions (ints at +-2^31/2^53/2^63/2^64 via literal, arithmetic, int(), float; integral floats; nan, "
+            "inf, -0.0; strings via literal/concat/slice/format/join/interning/host allocation; tuples, lists, dicts, sets, "
+            "structs, ranges via several paths), ALL ordered pairs, in three modes (unfrozen x unfrozen, unfrozen x frozen+"
+            "loaded, frozen x frozen): ==, !=, symmetry, the four order operators, dict lookup, set membership, `in`, and "
+            "compile-time-folded == must agree with exact abstract equality/order; sorted/min/max are checked for order, "
+            "reverse and stability. Agreement with an abstract equivalence on all pairs implies reflexivity, symmetry and "
+            "transitivity on the catalogue.",
+            "Abstract equality compares numbers by exact mathematical value (Starlark spec); NaN equals NaN and sorts last "
+            "(spec). One known finding (int/float rounding) and one fixed defect are in known-findings.json.",
+            "DESIGN.md#c09"),
     "C10": ("exploration",
             "exhaustive pairs over a boundary grid for every operator, folded-literal / runtime / Rust-API forms, differential against CPython big integers",
             "Grid {0} u {+-2^k, +-2^k+-1 : k in 0..70, 126..129, 254..257}; ALL ordered pairs x 14 binary operators and "
@@ -90,6 +113,16 @@ CHECKS = {
             "with the effect it has on a fresh container.",
             "One known finding (release after a propagating error) is listed in known-findings.json.",
             "DESIGN.md#c12"),
+    "C16": ("exploration",
+            "exhaustive type-term x value-catalogue matrix on six check paths, frozen and unfrozen, against a denotes(T, v) reference model",
+            "All type terms to depth 1 (quick) / 2 (thorough, inner positions from 8 representatives) over Any, Never, None, "
+            "bool, int, float, str, list, dict, set, tuple, Callable, Iterable, range, struct, two records and two enums of "
+            "equal shape, list[T], set[T], tuple[T, ...], (A,), (A, B), (A, B, C), dict[K, V], A | B, A | B | C - x 76 values "
+            "x {isinstance by name, isinstance by expression, parameter annotation, return annotation, annotated assignment, "
+            "host TypeCompiled::matches} x {unfrozen, frozen + loaded}: each answer must equal denotes(T, v).",
+            "denotes() is transcribed from docs/types.md. tuple[A, B] / tuple[A] spellings are not accepted by this "
+            "implementation (fixed arity is written as a tuple of types), so they are not in the alphabet.",
+            "DESIGN.md#c16"),
 }
 
 NOT_YET = {
